@@ -20,6 +20,7 @@ run regress/revert-fix-mp11-exit-point-active.diff C09
 run regress/revert-fix-back-sub-entry-original-event.diff C13
 run regress/revert-fix-back-entry-throw-blocked.diff C12
 run regress/revert-fix-mp11-entry-throw-blocked.diff C12
+run regress/revert-fix-mp11-completion-result-uninit.diff C12
 for d in seeded/S*/; do
   id=$(basename $d)
   for p in $(python3 -c "import json;print(' '.join(json.load(open('$d/meta.json'))['selftest']))"); do run $d/patch.diff $p; done
